@@ -33,7 +33,26 @@ def o1_o2(prog, rep):
     # --- network get
     u = prog.unit("events/events_network.c")
     g = u.func("events_network_get")
-    loads = [e for e in g.all_elems() if e.is_assign and e.op == "=" and fieldname(norm(e.kid(1))) in ("reader", "writer")]
+    asg = {}
+    for e in g.all_elems():
+        if e.is_assign and e.op == "=" and norm(e.kid(0))[0] == "v":
+            asg.setdefault(norm(e.kid(0)), []).append(norm(e.kid(1)))
+
+    def slot_addr(t, depth=0):
+        """t designates the address of a reader/writer slot (directly, or a local that is only ever given such addresses)"""
+        if t[0] == "&" and fieldname(t[1]) in ("reader", "writer"):
+            return True
+        return t[0] == "v" and depth < 4 and bool(asg.get(t)) and all(slot_addr(x, depth + 1) for x in asg[t])
+
+    def slot_term(t):
+        return fieldname(t) in ("reader", "writer") or (t[0] == "*" and slot_addr(t[1]))
+
+    def slot_value(t, depth=0):
+        """t is NULL, a slot's contents, or a local that is only ever given such values"""
+        if t == ("c", 0) or slot_term(t):
+            return True
+        return t[0] == "v" and depth < 4 and bool(asg.get(t)) and all(slot_value(x, depth + 1) for x in asg[t])
+    loads = [e for e in g.all_elems() if e.is_assign and e.op == "=" and slot_term(norm(e.kid(1)))]
     if len(loads) != 2:
         rep.defer_broken("O1: expected 2 slot loads in events_network_get")
     for ld in loads:
@@ -45,12 +64,12 @@ def o1_o2(prog, rep):
             between = [e for e in ld.block.elems[ld.i + 1:clr[0].i] if e.cls == "CallExpr" and e.callee not in ("socketlist_get",)]
             ok = not between
         rep.check(ok, "O1-take", "events_network_get: %s" % ld.text[:50], ld.where,
-                  "the slot %s must be set to NULL right after it was read, before anything else runs" % show(slot), function=g.name, construct="take:" + fieldname(slot))
+                  "the slot %s must be set to NULL right after it was read, before anything else runs" % show(slot), function=g.name, construct="take:" + str(fieldname(slot) or show(slot)))
     rets = [norm(r.kid(0)) for r in g.returns()]
     rep.check(all(r[0] == "v" for r in rets) and len(set(rets)) == 1, "O1-take", "events_network_get returns only what it took from a slot", g.loc, "", function=g.name, construct="ret")
     # the returned variable is assigned only NULL or a slot value
     rv = rets[0] if rets else None
-    others = [e for e in g.all_elems() if e.is_assign and norm(e.kid(0)) == rv and not (norm(e.kid(1)) == ("c", 0) or fieldname(norm(e.kid(1))) in ("reader", "writer"))]
+    others = [e for e in g.all_elems() if e.is_assign and norm(e.kid(0)) == rv and not slot_value(norm(e.kid(1)))]
     rep.check(not others, "O1-take", "events_network_get: result has no other source", g.loc, "", function=g.name, construct="sources")
     # --- immediate get
     ui = prog.unit("events/events_immediate.c")
